@@ -380,9 +380,9 @@ class W(convo.World):
         elif n > 1:
             k3 = (client.jid, rec["id"], rec["sender"])
             nretry = self.retries_sent.get((client.jid, rec["id"], rec["sender"] if not rec["group"] else rec["to"]), 0)
-            if self.server.duplicated.get(k3) and nretry >= 2:
-                # one specific history: both copies of a duplicated group message were undecryptable, the recipient asked
-                # twice for a retry and the sender served both requests
+            if self.server.duplicated.get(k3) and k3 in self.server.corrupted and nretry >= 2:
+                # one specific history: the server damaged a message and delivered it twice, the recipient could decrypt
+                # neither copy, asked twice for a retry and the sender served both requests
                 self.violate("delivery/duplicate/retry-requested-for-both-copies-of-a-duplicated-message",
                              desc + ": shown %d times (the server delivered it twice, the recipient could decrypt neither copy "
                              "and sent %d retry receipts, the sender re-sent it for each)" % (n, nretry))
@@ -416,7 +416,8 @@ class W(convo.World):
                 k3 = (rj, rec["id"], rec["sender"])
                 corrupted = k3 in self.server.corrupted
                 dup = self.server.duplicated.get(k3, 0)
-                suffix = "%s%s%s%s" % (rec["kind"], "/group" if rec["group"] else "", "/after-corruption" if corrupted else "",
+                suffix = "%s%s%s%s" % (rec["kind"], "/group" if rec["group"] else "", ("/after-corruption-of-the-message-counter" if k3 in self.server.corrupted_counter else
+                                                                                 "/after-corruption") if corrupted else "",
                                        "/with-duplicate" if dup else "")
                 if n == 0:
                     self.violate("delivery/lost/%s" % suffix, "message tok %d (%s, id %s) from %s never reached the application "
